@@ -33,6 +33,8 @@ pub struct Profile {
     pub p_offend: u64,
     /// per-mille chance per commit to remove the whole right half of the tree in one commit
     pub p_shrink: u64,
+    /// per-mille chance per round that an outsider joins by an external commit instead of a member committing
+    pub p_external: u64,
     /// C14: every member picks one of the three shipped providers at random; `suite` is the group's cipher suite
     pub mixed_providers: bool,
     pub suite: u16,
@@ -61,6 +63,7 @@ impl Profile {
             public_handshake: false,
             p_offend: 0,
             p_shrink: 60,
+            p_external: 40,
             mixed_providers: false,
             suite: 1,
             suites: vec![1],
@@ -419,7 +422,10 @@ impl<'a, C: MlsConfig> Hist<'a, C> {
             let sname = self.w.members[s].setup.name.clone();
             let payload = self.rng.bytes(5);
             let pl = payload.clone();
-            let (r, m) = self.w.with_group(s, |g| g.encrypt_application_message(&pl, vec![]));
+            // authenticated data travels in the clear next to the ciphertext and is reported to the receiver
+            let aad = if self.rng.chance(1, 2) { vec![] } else { let n = 1 + self.rng.below(6) as usize; self.rng.bytes(n) };
+            let aad2 = aad.clone();
+            let (r, m) = self.w.with_group(s, |g| g.encrypt_application_message(&pl, aad2));
             self.rep.op("app", &r);
             self.w.log(format!("app {sname} -> {}", r.s()));
             let Some(m) = m else { continue };
@@ -435,6 +441,9 @@ impl<'a, C: MlsConfig> Hist<'a, C> {
                     Some(ReceivedMessage::ApplicationMessage(a)) => {
                         if a.data() != payload.as_slice() || a.sender_index != self.leaf_of(s) {
                             self.fail("C03", format!("{n} reports wrong sender/payload for m{mi}"));
+                        }
+                        if a.authenticated_data != aad {
+                            self.fail("C03", format!("{n} reports other authenticated data than {sname} sent with m{mi}"));
                         }
                     }
                     _ => self.fail("C01", format!("{n} cannot decrypt application message m{mi} of {sname}: {}", r.s())),
@@ -1245,6 +1254,86 @@ impl<'a, C: MlsConfig> Hist<'a, C> {
         }
     }
 
+    /// An outsider joins by an external commit built from a member's GroupInfo (RFC 9420 12.4.3.2): every member and every
+    /// observer processes it; the cached proposals of the epoch are dropped by everybody.  The tree-layer and group-model row
+    /// streams have no external-commit operation: the group-model stream of this history ends here, the incremental hash
+    /// rows restart.
+    pub fn external_round(&mut self) -> bool {
+        let active = self.active();
+        if active.is_empty() || active.len() >= self.prof.max_members || self.prof.p_offend > 0 {
+            return false;
+        }
+        let outs = self.outsiders();
+        let x = if let Some(&x) = outs.first() { x } else if self.w.members.len() < self.prof.max_members + 4 { self.new_member() } else { return false };
+        let a = *self.rng.pick(&active);
+        let epoch = self.w.group(a).current_epoch();
+        let with_tree = !self.w.members[a].setup.tree_ext;
+        let Ok(gi) = self.w.group(a).group_info_message_allowing_ext_commit(!with_tree || self.rng.chance(1, 2)) else { return false };
+        let tree_bytes = self.w.exported_tree_bytes(a);
+        let xname = self.w.members[x].setup.name.clone();
+        let has_tree_ext = gi.to_bytes().map(|b| b.len()).unwrap_or(0) > 0 && self.w.group(a).group_info_message_allowing_ext_commit(true).is_ok();
+        let _ = has_tree_ext;
+        let r = std::panic::catch_unwind(std::panic::AssertUnwindSafe(|| {
+            let b = self.w.members[x].client.external_commit_builder()?;
+            let b = b.with_tree_data(tree_of(&tree_bytes));
+            b.build(gi)
+        }));
+        let (g, cm) = match r {
+            Ok(Ok(v)) => v,
+            Ok(Err(e)) => {
+                self.w.log(format!("external commit {xname} -> err:{}", err_class(&e)));
+                self.fail("C07", format!("{xname} cannot build an external commit from a current GroupInfo: {}", err_class(&e)));
+                return false;
+            }
+            Err(_) => {
+                self.fail("C03", format!("panic while {xname} built an external commit"));
+                return false;
+            }
+        };
+        self.w.log(format!("external commit {xname} -> ok"));
+        self.rep.op("external-commit", &Res::Ok);
+        let cmi = self.w.push_msg("commit", &xname, epoch, cm, "external commit");
+        self.w.members[x].group = Some(g);
+        for &i in &active {
+            let (r, o) = self.deliver(i, cmi);
+            let n = self.w.members[i].setup.name.clone();
+            match o {
+                Some(ReceivedMessage::Commit(d)) if matches!(d.effect, CommitEffect::NewEpoch(_)) => {
+                    if !d.is_external {
+                        self.fail("C07", format!("{n} does not report m{cmi} as an external commit"));
+                    }
+                }
+                _ => self.fail("C07", format!("{n} rejected the external commit m{cmi} of {xname}: {}", r.s())),
+            }
+        }
+        self.kps.retain(|(j, _)| *j != x);
+        self.rep.commits += 1;
+        self.rep.cover.insert("external-commit".into());
+        let now = self.active();
+        for &i in &now {
+            let e = self.w.group(i).current_epoch();
+            if e != epoch + 1 {
+                let n = self.w.members[i].setup.name.clone();
+                self.fail("C01", format!("{n} is at epoch {e} after the external commit m{cmi} of epoch {epoch}"));
+            }
+        }
+        if let Err(e) = agreement(&self.w, &now) {
+            self.fail("C01", format!("after the external commit m{cmi}: {e}"));
+        }
+        self.ghost_oracle(cmi);
+        // the model streams that replay every commit cannot follow an external commit
+        self.w.group_rows.clear();
+        self.w.hash_caches.clear();
+        self.w.ph_layers.clear();
+        if let Some(t) = self.tap.as_deref_mut() {
+            let f = t.broadcast(&self.w, cmi, &mut self.rng);
+            self.rep.failures.extend(f);
+            let f = t.after_commit(&self.w, &now, cmi, &mut self.rng);
+            self.rep.failures.extend(f);
+        }
+        true
+    }
+
     pub fn write_reload(&mut self, i: usize) {
         let n = self.w.members[i].setup.name.clone();
         let (r, _) = self.w.with_group(i, |g| g.write_to_storage());
@@ -1749,6 +1838,9 @@ impl<'a, C: MlsConfig> Hist<'a, C> {
             self.w.group_rows.push((format!("g.init {ident}:{hpke}:{sig}"), "ok".into()));
         }
         for _ in 0..self.prof.rounds {
+            if self.rng.chance(self.prof.p_external, 1000) && self.external_round() {
+                continue;
+            }
             self.round();
             if self.rep.failures.len() > 20 || self.w.ended {
                 break;
